@@ -21,13 +21,14 @@ import (
 type faultWriter struct {
 	k     int
 	calls int
+	once  bool // only the k-th write fails (a transient fault); the writes after it are accepted again
 }
 
 var errDeviceFull = errors.New("no space left on device (injected)")
 
 func (f *faultWriter) Write(p []byte) (int, error) {
 	f.calls++
-	if f.k > 0 && f.calls >= f.k {
+	if f.k > 0 && (f.calls == f.k || (!f.once && f.calls > f.k)) {
 		return 0, errDeviceFull
 	}
 	return len(p), nil
@@ -43,21 +44,35 @@ func enumerateFaults(c *Case, run func(w io.Writer) error) {
 	}
 	n := fw.calls
 	var letters []byte
-	for k := 1; k <= n; k++ {
-		w := &faultWriter{k: k}
-		r := safeRun(15*time.Second, func() (string, error) { return "", run(w) })
+	letter := func(r result) byte {
 		switch {
 		case r.status == "ok":
-			letters = append(letters, 'S')
+			return 'S'
 		case strings.HasPrefix(r.status, "err:"):
-			letters = append(letters, 'E')
+			return 'E'
 		case r.status == "timeout":
-			letters = append(letters, 'H')
-		default:
-			letters = append(letters, 'P')
+			return 'H'
 		}
+		return 'P'
+	}
+	var transient []string
+	for k := 1; k <= n; k++ {
+		w := &faultWriter{k: k}
+		l := letter(safeRun(15*time.Second, func() (string, error) { return "", run(w) }))
+		if l == 'E' {
+			// the same fault point again, but only this one write fails: a later successful write must not hide it
+			w1 := &faultWriter{k: k, once: true}
+			if l1 := letter(safeRun(15*time.Second, func() (string, error) { return "", run(w1) })); l1 != 'E' {
+				l = l1
+				transient = append(transient, fmt.Sprint(k))
+			}
+		}
+		letters = append(letters, l)
 	}
 	c.SetInt("n", n).Set("go", string(letters))
+	if len(transient) > 0 {
+		c.Set("note", "not reported when only write "+strings.Join(transient, ",")+" fails and the later ones succeed")
+	}
 }
 
 func c19Gen(r *RNG, id string) *Case {
